@@ -207,7 +207,7 @@ Fixpoint delimit_go (ddt : bool) (db : bytes) (ti : option N) (i : N) (l : list 
   | [] => Some []
   | v :: t =>
       let here :=
-        if negb (contains v db) || (ddt && match ti with Some k => k =? i | None => false end)
+        if negb (contains v db) || (ddt && match ti with Some k => k <=? i | None => false end)
         then Some [v]
         else match split v db with SplitOk parts => Some parts | _ => None end in
       match here, delimit_go ddt db ti (i + 1) t with
